@@ -24,8 +24,8 @@ package main
 import (
 	"errors"
 	"fmt"
-	"io"
 	"net"
+	"os"
 	"runtime"
 	"strconv"
 	"strings"
@@ -544,6 +544,8 @@ func dspExec(in Fields) Fields {
 	cfg.PingFreq = 0
 	r := &dspRun{c: c, pend: map[*client.Line][3]int{}, park: make(chan struct{}), endSeen: make(chan struct{})}
 	r.buildEvidence()
+	stopWatch := dspWatchdog(r)
+	defer stopWatch()
 	if c.recmode == 1 {
 		cfg.Recover = r.recoverHook
 	}
@@ -604,7 +606,16 @@ func dspExec(in Fields) Fields {
 	case <-time.After(5 * time.Second):
 		return F("end:noconnect")
 	}
-	go io.Copy(io.Discard, srv) // whatever the client says (NICK, USER, PONG, MODE, WHO)
+	go func() { // whatever the client says (NICK, USER, PONG, MODE, WHO) is read and dropped
+		b := make([]byte, 4096)
+		for {
+			n, err := srv.Read(b)
+			atomic.AddInt64(&dspProgress, int64(n)+1)
+			if err != nil {
+				return
+			}
+		}
+	}()
 	if err := <-errc; err != nil {
 		return F("end:connecterr")
 	}
@@ -662,6 +673,7 @@ func dspExec(in Fields) Fields {
 				return
 			}
 			p += n
+			atomic.AddInt64(&dspProgress, 1)
 		}
 		if c.endmode == 2 && !fired {
 			close(closeCalled)
@@ -674,6 +686,7 @@ func dspExec(in Fields) Fields {
 	}()
 
 	status := "ok"
+	var hungDump []byte
 	wait := func(ch <-chan struct{}, what string, d time.Duration) {
 		if status != "ok" {
 			return
@@ -682,6 +695,8 @@ func dspExec(in Fields) Fields {
 		case <-ch:
 		case <-time.After(d):
 			status = "hung-" + what
+			buf := make([]byte, 1<<20)
+			hungDump = buf[:runtime.Stack(buf, true)] // the stacks at the moment the wait ran out
 		}
 	}
 	// the script itself may take a while (slow handlers, a loaded machine); the disconnect
@@ -731,8 +746,58 @@ func dspExec(in Fields) Fields {
 		}
 		obs = append(obs, []byte{byte(e.tag), byte(e.kind), byte(k >> 8), byte(k), byte(e.i), byte(a >> 8), byte(a)})
 	}
+	if status != "ok" {
+		// a wait of the harness ran out: keep the stacks for the diagnosis (this field does
+		// not decode as an event, so the session fails whatever follows)
+		obs = append(obs, append([]byte("stacks when the wait ran out:\n"), hungDump...))
+	}
 	obs = append(obs, []byte("end:"+status))
 	return obs
+}
+
+// ---------- stall watchdog (child process) ----------
+// Progress = events recorded + chunks written by the server side + bytes read from the client.
+// A session in which NOTHING of that moves for dspStallSecs seconds (handlers sleep 70 ms at
+// most; every wait of the harness is shorter) is stalled: the child writes "DSPSTALL" and the
+// stacks of all goroutines to stderr and exits; the parent turns that into obs "dead" "stalled"
+// + the dump.  A child that is merely slow (overloaded machine) keeps making progress.
+var dspProgress int64
+
+func dspEnvSecs(name string, def int) int {
+	if v := os.Getenv(name); v != "" {
+		if n, err := strconv.Atoi(v); err == nil && n > 0 {
+			return n
+		}
+	}
+	return def
+}
+
+func dspWatchdog(r *dspRun) func() {
+	stop := make(chan struct{})
+	limit := dspEnvSecs("DSP_STALL_SECS", 25)
+	go func() {
+		last, idle := int64(-1), 0
+		for {
+			select {
+			case <-stop:
+				return
+			case <-time.After(time.Second):
+			}
+			p := atomic.LoadInt64(&dspProgress) + atomic.LoadInt64(&r.seq)
+			if p != last {
+				last, idle = p, 0
+				continue
+			}
+			idle++
+			if idle >= limit {
+				buf := make([]byte, 4<<20)
+				n := runtime.Stack(buf, true)
+				fmt.Fprintf(os.Stderr, "DSPSTALL no progress for %d s (progress %d)\n%s\n", limit, p, buf[:n])
+				os.Exit(4)
+			}
+		}
+	}()
+	return func() { close(stop) }
 }
 
 // ---------- generator shared by the three checks ----------
